@@ -15,6 +15,8 @@ import Mathlib.Tactic.Ring
 import Mathlib.Tactic.Linarith
 import Mathlib.Algebra.Order.Field.Rat
 import Mathlib.Algebra.BigOperators.Group.List.Basic
+import Mathlib.Algebra.MvPolynomial.PDeriv
+import Mathlib.RingTheory.Derivation.Lie
 
 namespace Jinns.Equations
 open Jinns.Calc
@@ -779,7 +781,7 @@ theorem evaluate_massConservation (Tmax x y : Rat) (k : String) (d : List (Strin
     (p : EqParams) (hu : netOf d k = .ok u) :
     evaluate ops ext evAt Tmax (.massConservation k) none (.statio [x, y]) (.dict d) p =
       .ok [evAt [0, x, y] (massConservation ops 2 (fun i => nth ops u i))] := by
-  simp only [evaluate, Builtin.eqType, evalHetero, equationAt, hu]
+  simp only [evaluate, Builtin.eqType, equationAt, hu]
   rfl
 
 theorem evaluate_navierStokes (Tmax nu rho x y : Rat) (uk pk : String) (d : List (String × List F))
@@ -882,3 +884,117 @@ theorem model_holds_navierStokes (nu rho : Rat) (u : List Poly) (p : Poly) (pt :
     exact compareAll_self _ _ _ _
 
 end Jinns.Holds
+
+/-! ### non-vacuity
+
+* `polyEvalHom`: the executable instance `polyOps` with `Poly.eval · pt` satisfies `EvalHom` (so every
+  pointwise theorem above applies to what the driver computes).
+* `mvLawful`, `mvEvalHom`: Mathlib's `MvPolynomial ℕ ℚ` with its partial derivatives (variable 0 = `t`,
+  variable `i + 1` = `x_i`) and evaluation at a point satisfies `LawfulDeriv` and `EvalHom` together: the
+  hypotheses of the OU corollaries are inhabited by the genuine polynomial algebra. -/
+
+namespace Jinns.Equations
+open Jinns.Calc
+
+section LawfulInstance
+open MvPolynomial
+
+noncomputable def mvOps : FieldOps (MvPolynomial ℕ ℚ) where
+  zero := 0
+  add := fun a b => a + b
+  neg := fun a => -a
+  mul := fun a b => a * b
+  smul := fun c a => c • a
+  dT := fun a => pderiv 0 a
+  dX := fun i a => pderiv (i + 1) a
+
+noncomputable def mvExt : FieldExt (MvPolynomial ℕ ℚ) where
+  one := 1
+  coord := fun i => X (i + 1)
+
+theorem pderiv_comm (i j : ℕ) (a : MvPolynomial ℕ ℚ) :
+    pderiv i (pderiv j a) = pderiv j (pderiv i a) := by
+  have h : ⁅(pderiv i : Derivation ℚ (MvPolynomial ℕ ℚ) (MvPolynomial ℕ ℚ)),
+      (pderiv j : Derivation ℚ (MvPolynomial ℕ ℚ) (MvPolynomial ℕ ℚ))⁆ = 0 := by
+    refine MvPolynomial.derivation_ext (R := ℚ) (σ := ℕ) ?_
+    intro k
+    rw [Derivation.commutator_apply]
+    simp only [pderiv_X, Derivation.coe_zero, Pi.zero_apply]
+    by_cases hj : j = k <;> by_cases hi : i = k <;> simp [Pi.single_apply, hj, hi]
+  have h2 := congrArg (fun D => D a) h
+  simp only [Derivation.commutator_apply, Derivation.coe_zero, Pi.zero_apply] at h2
+  exact sub_eq_zero.mp h2
+
+theorem mvLawful : LawfulDeriv mvOps mvExt where
+  dX_zero := by intro i; simp [mvOps]
+  dX_add := by intro i a b; simp [mvOps]
+  dX_neg := by intro i a; simp [mvOps]
+  dX_smul := by intro i c a; simp [mvOps]
+  dX_mul := by intro i a b; simp [mvOps, Derivation.leibniz]; ring
+  dX_one := by intro i; simp [mvOps, mvExt]
+  dX_coord := by
+    intro i j
+    by_cases h : i = j <;> simp [mvOps, mvExt, pderiv_X, Pi.single_apply, h]
+  dX_comm := by intro i j a; exact pderiv_comm _ _ _
+
+theorem mvEvalHom (pt : ℕ → ℚ) : EvalHom mvOps (fun p => MvPolynomial.eval pt p) where
+  zero := by simp [mvOps]
+  add := by intro a b; simp [mvOps]
+  neg := by intro a; simp [mvOps]
+  mul := by intro a b; simp [mvOps]
+  smul := by intro c a; simp [mvOps, MvPolynomial.smul_eval]
+
+/-- the OU corollaries hold in the genuine polynomial algebra, at every point -/
+example (pt : ℕ → ℚ) (Tmax : ℚ) (alpha mu sigma : List ℚ) (u : MvPolynomial ℕ ℚ) :=
+  ouFPE_expanded (mvEvalHom pt) (by simp [mvExt]) mvLawful Tmax alpha mu sigma u
+
+example (pt : ℕ → ℚ) (sigma : List ℚ) (u : MvPolynomial ℕ ℚ) :=
+  ou_second_order (mvEvalHom pt) (by simp [mvExt]) mvLawful sigma u
+
+/-- commuting cross partials: hypothesis of `fpe2D_eq_doc_of_comm` -/
+example (pt : ℕ → ℚ) (Tmax : ℚ) (drift : ℕ → MvPolynomial ℕ ℚ) (diff : ℕ → ℕ → MvPolynomial ℕ ℚ)
+    (u : MvPolynomial ℕ ℚ) :=
+  fpe2D_eq_doc_of_comm (mvEvalHom pt) Tmax drift diff u (fun a => mvLawful.dX_comm 0 1 a)
+
+end LawfulInstance
+
+section Examples
+
+/-- the pointwise theorems on the executable instance -/
+example (pt : List ℚ) (Tmax nu : ℚ) (u : Poly) := burgers_vanishes_iff (polyEvalHom pt) Tmax nu u
+example (pt : List ℚ) (d : ℕ) (Tmax D r g : ℚ) (u : Poly) :=
+  fisherKPP_vanishes_iff (polyEvalHom pt) (polyExt_one pt) d Tmax D r g u
+example (pt : List ℚ) (nu rho : ℚ) (u : ℕ → Poly) (p : Poly) :=
+  navierStokes_vanishes_iff (polyEvalHom pt) nu rho u p 1 (by omega)
+
+/-- symmetric diffusion (hypothesis of `fpe2D_eq_doc_of_symm`): the OU matrix `½ σσᵀ` -/
+example (sigma : List ℚ) : ouDiffusion sigma 0 1 = ouDiffusion sigma 1 0 := ouDiffusion_symm sigma 0 1
+
+/-- GLV guard inhabited: `u_main = t + 1`, other population `2t`, at `t = 1` (`u_main(1) = 2 ≠ 0`):
+    `u'/u + Tmax (−r − (a_0 u_0 + a_1 u_1) + c (u_0 + u_1))` with `Tmax = 2, c = 1/2, r = 2, a = [1, −1/2]`
+    is `1/2 + 2·(−2 − (2 − 1) + 2) = −3/2` -/
+example : glv polyOps (fun p => Poly.eval p [1]) 2 (1 / 2) 2 [1, -1 / 2] [(1, [1]), (1, [])] [[(2, [1])]]
+    = some (-3 / 2) := by
+  have h0 : Poly.eval [(1, [1]), (1, [])] [1] ≠ 0 := by
+    norm_num [eval_cons, eval_nil, monoEval_eq, pp, Poly.powNat]
+  rw [glv_value polyOps _ _ _ _ _ _ _ h0]
+  have hd : polyOps.dT [((1 : ℚ), [1]), (1, [])] = [((1 : ℚ) * ((1 : ℕ) : ℚ), [0])] := rfl
+  rw [hd]
+  norm_num [dotFrom, total, eval_cons, eval_nil, monoEval_eq, pp, Poly.powNat]
+
+/-- both parameter layouts expose the same interaction vector to `GeneralizedLotkaVolterra` -/
+example : getVec (extractParams [("b", .sub [("interactions", [1, 2])])] "b") "interactions" = .ok [1, 2] :=
+  getVec_extract_nested _ "b" "interactions" [("interactions", [1, 2])] [1, 2] rfl rfl
+example : getVec (extractParams [("interactions", .leaf [1, 2])] "b") "interactions" = .ok [1, 2] := by
+  rw [extractParams_flat _ _ rfl]; rfl
+example : getScalar [("rho", .leaf [2]), ("nu", .leaf [1 / 2])] "nu" = .ok (1 / 2) := rfl
+
+/-- a heterogeneity declaration without functions: hypothesis of `evalHetero_no_function` -/
+example : ∀ k f, ([("nu", none)] : List (String × Option (EvalArgs → PNode))).lookup k ≠ some (some f) := by
+  intro k f
+  simp only [List.lookup]
+  split <;> simp
+
+end Examples
+
+end Jinns.Equations
